@@ -239,6 +239,15 @@ let handle (req : sexp) : sexp =
     let counts = Array.make n_groups 0 in
     for g = 0 to n_groups - 1 do counts.(out_pos g) <- count_of g done;
     zl (build_group_sorted_indexer chs (List.map z_of_int (Array.to_list counts)) key_map mask)
+  | L [A "bool_labels"; rows] ->
+    (* per row of 0/1: the mask and the column positions its label names *)
+    L (List.map (fun r ->
+        let bits = List.map (fun x -> atom x <> "0") (lst r) in
+        let m = row_mask bits in
+        L [A (string_of_z m); L (List.map (fun i -> A (string_of_int (int_of_nat i))) (mask_labels (nat_of_int (List.length bits)) m))]) (lst rows))
+  | L [A "bin_codes"; bins; xs] ->
+    let b = zlist bins in
+    zl (List.map (fun x -> bin_code b x) (zlist xs))
   | L [A "nan_reduce"; d; op; vals; nt] ->
     let D (o, rd, pr) = dom_of d in
     let vl = List.map (fun x -> rd (atom x)) (lst vals) in
